@@ -84,14 +84,14 @@ Fixpoint compare_fuel (n : nat) (lhs rhs : jv) : cmp :=
       let arr_eq := fix arr_eq (x y : list jv) : bool :=
         match x, y with
         | [], [] => true
-        | a :: x', b :: y' => is_equal (cmpv a b) && arr_eq x' y'
+        | a :: x', b :: y' => is_equal (cmpv b a) && arr_eq x' y'     (* *a != *b evaluates compare(*b, *a) *)
         | _, _ => false
         end in
       (* JsonObjectConst::operator==(x, y): every member of x has an equal value under y[key]
          (first match), and the member counts agree *)
       let obj_eq := fun (x y : list (bytes * jv)) =>
         forallb (fun kv => match assoc_get (fst kv) y with
-                           | Some w => is_equal (cmpv (snd kv) w)
+                           | Some w => is_equal (cmpv w (snd kv))      (* value != rhsValue evaluates compare(rhsValue, value) *)
                            | None => false
                            end) x && Nat.eqb (length x) (length y) in
       match lhs with
@@ -124,10 +124,12 @@ Fixpoint compare_fuel (n : nat) (lhs rhs : jv) : cmp :=
 
 Definition compare (lhs rhs : jv) : cmp := compare_fuel (jsize lhs + jsize rhs) lhs rhs.
 
-(* the six operators of VariantOperators, variant on both sides *)
-Definition op_eq (a b : jv) : bool := is_equal (compare a b).
-Definition op_ne (a b : jv) : bool := negb (is_equal (compare a b)).
-Definition op_lt (a b : jv) : bool := match compare a b with CLess => true | _ => false end.
-Definition op_gt (a b : jv) : bool := match compare a b with CGreater => true | _ => false end.
-Definition op_le (a b : jv) : bool := match compare a b with CLess | CEqual => true | _ => false end.
-Definition op_ge (a b : jv) : bool := match compare a b with CGreater | CEqual => true | _ => false end.
+(* the six operators of VariantOperators with a variant on both sides.  Overload resolution picks the
+   "value OP TVariant" form (the other one is disabled for variant right operands), which evaluates
+   compare(rhs, lhs) and reads the answer backwards. *)
+Definition op_eq (a b : jv) : bool := is_equal (compare b a).
+Definition op_ne (a b : jv) : bool := negb (is_equal (compare b a)).
+Definition op_lt (a b : jv) : bool := match compare b a with CGreater => true | _ => false end.
+Definition op_gt (a b : jv) : bool := match compare b a with CLess => true | _ => false end.
+Definition op_le (a b : jv) : bool := match compare b a with CGreater | CEqual => true | _ => false end.
+Definition op_ge (a b : jv) : bool := match compare b a with CLess | CEqual => true | _ => false end.
